@@ -108,6 +108,33 @@ def run(ctx):
                 delivered_by_flush += 1
         if len(samples) < 3 and fmsgs:
             samples.append({"kind": kind, "cut_after_s": cut, "rate": tx.rate, "flushed": flushed[:80]})
+    # the documented way to reuse a receiver: flush() at the end of one recording, reset(), next recording.  A recording whose
+    # StartOfMessage was reported, then reset(), then a close-cut recording of the SAME header: flushing must deliver it again
+    reuse_ok = 0
+    rlines, rmeta = [], []
+    for j in range(3 if q else 30):
+        rate = rng.choice([8000, 11025, 22050])
+        H = samegen.gen_header(rng, nloc=rng.choice([1, 2, 6]))
+        tx = rxlib.Tx(rng, H=H, rate=rate, impaired=False)
+        dur = (16 + len(H)) * 8 / 520.83
+        clip = "B%s,S1.00,B%s,S1.00,B%s" % ((rxlib.burst_hex(H),) * 3)
+        cut = rng.choice([0.0, 0.01, 0.2, 0.5])
+        script = "S0.30,%s,S2.50,S0.30,%s%s" % (clip, clip, (",S%.2f" % cut) if cut else "")
+        t_reset = 0.30 + 3 * dur + 2.0 + 2.3
+        rlines.append(tx.line(script=script, extra="flush=4 reset_at=%d" % int(t_reset * rate))); rmeta.append((tx, H, cut))
+    for (tx, H, cut), r, line in zip(rmeta, rxlib.run_rx(rlines, check_model=False), rlines):
+        if r.get("error"):
+            ctx.violation("harness-failure", r["error"][:200], {"input": line}); continue
+        ev = rxlib.parse_events(r["impl"])
+        got = [e["text"] for e in ev if e["kind"] == "som"]
+        flushed = r["extras"].get("flushed", "-")
+        got += [bytes.fromhex(f.split(":")[1]) for f in ([] if flushed == "-" else flushed.split("/")) if f.startswith("som")]
+        if got != [H]:
+            ctx.violation("property", "after flush-and-reset a close-cut recording of the same header (cut %.2f s after the last burst) delivered %d "
+                          "StartOfMessage(s), expected 1" % (cut, len(got)), {"input": line, "events": r["impl"][:2000], "flushed": flushed})
+        else:
+            reuse_ok += 1
+    ctx.coverage["reuse_after_reset_ok"] = reuse_ok
     # samedec on close-cut files
     sd_ok, sd_n = 0, 0
     exe = os.path.join(vlib.TARGET, "release", "samedec")
